@@ -75,6 +75,12 @@ def newThrottle (limit : Int) : M Nat := do
 
 def getPayload (query : String) : String := if query == "" then "{}" else s!"query={query}"
 
+def reqPayloadH (cid : Nat) (token : String) (query : String) (params : String) (isHttp : Bool) : String :=
+  let parts := [s!"cid={cname cid}"] ++ (if isHttp then ["isHttp=true"] else []) ++
+    (if params == "" then [] else [s!"params={params}"]) ++
+    (if query == "" then [] else [s!"query={query}"]) ++ [s!"token={token}"]
+  ",".intercalate parts
+
 def reqPayload (cid : Nat) (token : String) (query : String) (params : String) : String :=
   let parts := [s!"cid={cname cid}"] ++ (if params == "" then [] else [s!"params={params}"]) ++
     (if query == "" then [] else [s!"query={query}"]) ++ [s!"token={token}"]
